@@ -139,8 +139,16 @@ MINMAX_RULES = [
 ]
 
 
+def mut_ref(m, name):
+    """`&mut name` for a local, `&mut *name` when `name` is itself a `&mut` parameter of the item."""
+    if re.search(r'\b%s\s*:\s*&mut\b' % re.escape(name), m.string):
+        return '&mut *' + name
+    return '&mut ' + name
+
+
 # R-ALLOC: explicit allocation requests in reader code carry a constant bound (prelude/alloc.rs)
 ALLOC_RULES = [
     (re.compile(r'vec!\[([^;\]]+);\s*([^\]]+)\]'), r'vec_filled(\1, \2)', None, 'R-ALLOC vec![x; n]'),
+    (re.compile(r'\b([A-Za-z_][A-Za-z0-9_.]*)\.resize\('), lambda m: 'vec_resize_bounded(%s, ' % mut_ref(m, m.group(1)), None, 'R-ALLOC Vec::resize'),
     (re.compile(r'Vec::(?:<([^>]*)>::)?with_capacity\('), lambda m: ('vec_with_capacity_bounded::<%s>(' % m.group(1)) if m.group(1) else 'vec_with_capacity_bounded(', None, 'R-ALLOC Vec::with_capacity'),
 ]
